@@ -2,6 +2,6 @@ CONSTANTS Feat = {1, 2, 4}  VersNr = 9  CompId = 617  MaxOwed = 2  MaxT = 500000
 CONSTANT RxAlphabet <- MCRx
 SPECIFICATION Spec
 INVARIANTS TypeOK NeverAnswerRejects UnknownGetsUnknownRsp MalformedGetsUnknownRsp VersionOnce Satisfiable
-PROPERTIES TimeoutOnlyWhenPending
+PROPERTIES TimeoutOnlyWhenPending OnlyItsAnswerStopsTheTimer OtherAnswerKeepsTheTimer
 CONSTRAINT Bound
 CHECK_DEADLOCK FALSE
